@@ -385,22 +385,36 @@ theorem creatorDetached_false_iff {s : KState} (hn : Sk.Nodup s.skel) (c : Optio
     simp only [Option.some.injEq, exists_eq_left']
     exact isDetached_false_iff hn c'
 
+/-- What the triggers and CHECKs accept for a creator: the root row only keeps itself, attached;
+any other row gets another, existing row of an accepted kind. -/
 theorem creatorAllowed_some {s : KState} {k ck : Key} {d : Bool} (h : s.creatorAllowed k (some ck) d = true) :
-    ck ≠ k ∧ Has s.skel ck ∧ creatorKindOk k.kind ck.kind = true := by
+    (k.kind = .root ∧ ck = k ∧ d = false) ∨
+    (k.kind ≠ .root ∧ ck ≠ k ∧ Has s.skel ck ∧ creatorKindOk k.kind ck.kind = true) := by
   unfold KState.creatorAllowed at h
-  simp only [Bool.and_eq_true, decide_eq_true_eq] at h
-  obtain ⟨h1, h2⟩ := h
-  cases hf : s.find? ck with
-  | none => simp [hf] at h1
-  | some cn =>
-    simp only [hf] at h1
-    have := find?_tri hf
-    rw [this.2] at h1
-    exact ⟨h2, find?_some_has hf, h1⟩
+  by_cases hk : k.kind = .root
+  · rw [if_pos hk] at h
+    simp only [Bool.and_eq_true, decide_eq_true_eq, Option.some.injEq, Bool.not_eq_true'] at h
+    exact Or.inl ⟨hk, h.1, h.2⟩
+  · rw [if_neg hk] at h
+    simp only [Bool.and_eq_true, decide_eq_true_eq] at h
+    obtain ⟨h1, h2⟩ := h
+    cases hf : s.find? ck with
+    | none => simp [hf] at h1
+    | some cn =>
+      simp only [hf] at h1
+      have := find?_tri hf
+      rw [this.2] at h1
+      exact Or.inr ⟨hk, h2, find?_some_has hf, h1⟩
 
-theorem creatorAllowed_none {s : KState} {k : Key} {d : Bool} (h : s.creatorAllowed k none d = true) : d = true := by
+/-- No row of kind root loses its creator. -/
+theorem creatorAllowed_none {s : KState} {k : Key} {d : Bool} (h : s.creatorAllowed k none d = true) :
+    d = true ∧ k.kind ≠ .root := by
   unfold KState.creatorAllowed at h
-  exact h
+  by_cases hk : k.kind = .root
+  · rw [if_pos hk] at h
+    simp at h
+  · rw [if_neg hk] at h
+    exact ⟨h, hk⟩
 
 theorem insertAllowed_some {s : KState} {k ck : Key} (h : s.insertAllowed k (some ck) = true) :
     Has s.skel ck ∧ creatorKindOk k.kind ck.kind = true := by
